@@ -96,12 +96,12 @@ def TTy (τa : ETy) (lt : Layer) : ETy := (Ty.mk { rest := τa.ty.mod.rest &&& 3
 theorem boolR_ne_int32 : boolR ≠ (scalarTy .int32).r := by decide
 
 /-- **`?:` is stable under re-elaboration.** -/
-theorem elabTern_stable {c' a' b' n c0 a0 b0 : IExpr} {τc τa τb τ τc0 τa0 τb0 : ETy}
+theorem elabTern_stable {c' a' b' n : IExpr} {τc τa τb τ : ETy}
     (h : elabTern c' τc a' τa b' τb = .ok (n, τ)) :
     ∃ D cc ca cb c2 a2 b2, find τc boolR = .ok (some cc) ∧ applyConv cc c' = .ok c2 ∧
       find τa D = .ok (some ca) ∧ find τb D = .ok (some cb) ∧ D.vt = .rvalue ∧
       applyConv ca a' = .ok a2 ∧ applyConv cb b' = .ok b2 ∧ n = .tern c2 a2 b2 ∧
-      (Back τc boolR c' c2 c0 τc0 → Back τa D a' a2 a0 τa0 → Back τb D b' b2 b0 τb0 →
+      (∀ c0 τc0 a0 τa0 b0 τb0, Back τc boolR c' c2 c0 τc0 → Back τa D a' a2 a0 τa0 → Back τb D b' b2 b0 τb0 →
         elabTern c0 τc0 a0 τa0 b0 τb0 = .ok (n, τ)) := by
   unfold elabTern at h
   split at h
@@ -138,7 +138,7 @@ theorem elabTern_stable {c' a' b' n c0 a0 b0 : IExpr} {τc τa τb τ τc0 τa0 
                   simp at h
                   obtain ⟨cc, hfc, hac, _⟩ := convert_inv hcc
                   refine ⟨TTy τa lt, cc, ca, cb, c2, a2, b2, hfc, hac, hca, hcb, rfl, ha2, hb2, h.1.symm, ?_⟩
-                  intro hbc hba hbb
+                  intro c0 τc0 a0 τa0 b0 τb0 hbc hba hbb
                   -- the left arm decides the modifier of the common type
                   have hD0 : TTy τa0 lt = TTy τa lt := by
                     cases hba with
@@ -199,11 +199,11 @@ theorem elabTern_stable {c' a' b' n c0 a0 b0 : IExpr} {τc τa τb τ τc0 τa0 
 /-! ## the assignment family -/
 
 /-- **Assignments are stable under re-elaboration** (the left operand is never converted). -/
-theorem elabAssign_stable {o : BinOp} {a b' n b0 : IExpr} {τa τb τ τb0 : ETy}
+theorem elabAssign_stable {o : BinOp} {a b' n : IExpr} {τa τb τ : ETy}
     (h : elabAssign o a τa b' τb = .ok (n, τ)) :
     ∃ c b2 i, find τb τa.ty.r = .ok (some c) ∧ applyConv c b' = .ok b2 ∧ o.toIOp = some i ∧
       n = .op i (.cons a (.cons b2 .nil)) ∧
-      (Back τb τa.ty.r b' b2 b0 τb0 → elabAssign o a τa b0 τb0 = .ok (n, τ)) := by
+      (∀ b0 τb0, Back τb τa.ty.r b' b2 b0 τb0 → elabAssign o a τa b0 τb0 = .ok (n, τ)) := by
   unfold elabAssign at h
   split at h
   · simp at h
@@ -225,7 +225,7 @@ theorem elabAssign_stable {o : BinOp} {a b' n b0 : IExpr} {τa τb τ τb0 : ETy
           · rename_i out hout
             simp at h
             refine ⟨c, b2, i, hf, ha, hi, h.1.symm, ?_⟩
-            intro hb
+            intro b0 τb0 hb
             have hc0 := back_convert hf ha hb
             unfold elabAssign
             simp only [hconst, hlv, if_false, hc0, hi, hout]
